@@ -159,3 +159,16 @@ Proof.
   - apply Qle_trans with ((obs / tpb) * tpb); [apply Qmult_le_compat_r; lra | rewrite E; apply Qle_refl].
   - apply Qle_lt_trans with ((obs / tpb) * tpb); [rewrite E; apply Qle_refl | apply Qmult_lt_compat_r; lra].
 Qed.
+
+(* the recorded block count never exceeds what was asked for nor what the input holds, and is the request when the input suffices *)
+Theorem effective_blocks_spec requested input n : effective_blocks requested input = Some n ->
+  (forall m, input = Some m -> n <= m)%Z /\ (forall k, requested = Some k -> n <= k)%Z /\
+  (forall k, requested = Some k -> (forall m, input = Some m -> k <= m)%Z -> n = k) /\
+  (requested = None -> input = Some n).
+Proof.
+  unfold effective_blocks. destruct requested as [k|], input as [m|]; intros H; inversion H; subst; clear H; repeat split; intros;
+    repeat match goal with E : Some _ = Some _ |- _ => inversion E; subst; clear E end; try congruence; try lia.
+  match goal with H0 : forall m0, Some _ = Some m0 -> _ |- _ => specialize (H0 _ eq_refl); lia end.
+Qed.
+Theorem effective_blocks_none requested input : effective_blocks requested input = None <-> (requested = None /\ input = None).
+Proof. unfold effective_blocks. destruct requested, input; split; intros H; try discriminate; try (destruct H; discriminate); auto. Qed.
